@@ -859,11 +859,13 @@ func (p *sshFxpReadPacket) getDataSlice(alloc *allocator, orderID uint32, maxTxP
 		dataLen = maxTxPacket
 	}
 
-	if alloc != nil {
+	if alloc != nil && dataLen <= maxMsgLength {
 		// GetPage returns a slice with capacity = maxMsgLength this is enough to avoid new allocations in
 		// sshFxpDataPacket.MarshalBinary
 		return alloc.GetPage(orderID)[:dataLen]
 	}
+
+	// (A read larger than a page, possible with WithMaxTxPacket(n > maxMsgLength), cannot use the allocator.)
 
 	// allocate with extra space for the header
 	return make([]byte, dataLen, dataLen+dataHeaderLen)
